@@ -190,7 +190,7 @@ prop('C07',
                  'do not meet ndarray rows.')
 
 prop('C08',
-     [reduced.r08_1, reduced.r08_2, reduced.r08_3, reduced.r08_4,
+     [reduced.r08_1, reduced.r08_2, reduced.r08_3, reduced.r08_4, reduced.r08_6,
       caches.r08_5, switch.r08_7, wrappers.r02_2, forward.r02_8, iface.r02_7,
       copies.r19_3],
      undecided=['value equality of evaluations', 'nan in released slots'],
@@ -292,7 +292,7 @@ prop('C12',
 prop('C13',
      [layout.r13_1, noise.r13_3, layout.r02_3, CUR_FILTER, switch.r03_5,
       iface.r02_6, iface.r02_7, filters.r12_4, filters.r12_1, filters.r12_3,
-      filters.r12_5],
+      filters.r12_5, reduced.r08_6],
      undecided=['numerical value of the posterior', 'ODE solution'],
      assumptions=TERM_ASSUME + ['numpy reshape/flatten are C-ordered'],
      technique='symbolic shape/layout interpretation of the filter '
@@ -311,7 +311,7 @@ prop('C13',
 
 prop('C17',
      [layout.r05_3, layout.r02_4, layout.r13_1, layout.r07_1,
-      wrappers.r02_2, forward.r02_8, reduced.r08_4, caches.r08_5, switch.r08_7, CUR_HIER,
+      wrappers.r02_2, forward.r02_8, reduced.r08_4, reduced.r08_6, caches.r08_5, layout.r07_3, switch.r08_7, CUR_HIER,
       CUR_LL],
      undecided=['uniqueness of run-time names (string contents)',
                 'bounded enumeration of deeper compositions'],
